@@ -2608,6 +2608,12 @@ class SFTPHandler(SSHPacketLogger):
             await self._cleanup(None)
         except (OSError, Error) as exc:
             await self._cleanup(exc)
+        except Exception as exc: # pylint: disable=broad-except
+            # Whatever ended the session (such as an uncaught exception in
+            # an application callback which closed the connection), make
+            # sure requests still waiting for a response are failed
+            await self._cleanup(exc)
+            raise
 
 
 class SFTPClientHandler(SFTPHandler):
